@@ -386,6 +386,6 @@ def builder_steps(c):
         redirect_files_attached_iff_given=f"redirect_iff({S}, 'TooShort', truthy(args.too_short_output) or truthy(args.too_short_paired_output)) and "
                                           f"redirect_iff({S}, 'TooLong', truthy(args.too_long_output) or truthy(args.too_long_paired_output))",
     )
-    c.mutant("steps.append(make_filter(predicate1, predicate2, path1, path2))", "steps.insert(0, make_filter(predicate1, predicate2, path1, path2))")
+    c.mutant("steps.append(make_filter(predicate1, predicate2, path1, path2))", "steps.append(make_filter(predicate2, predicate1, path1, path2))")
     c.mutant("(not adapters2 or not adapters)", "(not adapters2)")
     c.mutant("pair_filter_mode='both' if override_pair_filter_mode else pair_filter_mode", "pair_filter_mode=pair_filter_mode", occurrence=1)
